@@ -327,6 +327,33 @@ const (
 	unknownNumDigits = int64(-1)
 )
 
+// exponentLimit completes a setExponent call made on a computed result when
+// res, its outcome, says that the exponent was outside of the package limits
+// and has not been stored. A value above the upper limit is above every
+// context's MaxExponent: that is an ordinary overflow to infinity, or, for a
+// zero, an exponent to clamp. A value below the lower limit is not
+// representable; d is set to NaN and the error stands.
+func (d *Decimal) exponentLimit(c *Context, res Condition) Condition {
+	if res.SystemUnderflow() {
+		d.Set(decimalNaN)
+		return res
+	}
+	if res.SystemOverflow() {
+		res &^= SystemOverflow | Overflow
+		if d.IsZero() {
+			d.Exponent = c.MaxExponent
+			res |= Clamped
+		} else {
+			// As in setExponent. The exponent of an infinity has no meaning,
+			// but it must not be the one d happened to have before.
+			d.Form = Infinite
+			d.Exponent = 0
+			res |= Overflow | Inexact
+		}
+	}
+	return res
+}
+
 // setExponent sets d's Exponent to the sum of xs. Each value and the sum
 // of xs must fit within an int32. An error occurs if the sum is outside of
 // the MaxExponent or MinExponent range. nd is the number of digits in d, as
